@@ -32,7 +32,7 @@ def klass(part, sc):
         return "%s%s%s%s" % ("LaTeXToPDF" if sc["conv"] == "latex" else "PDFToPNG", ":dotted-name" if dotted(sc) else "",
                              ":format" if sc["fmt"] != "png" else "", ":timeout" if sc["slow"] else "")
     if part == "ctxop":
-        return "Context:" + sc["op"]
+        return ("LaTeXToPDF:" if sc["op"] == "bad_create_command" else "Context:") + sc["op"]
     return part
 
 
@@ -47,6 +47,7 @@ class Replayer(object):
     def __init__(self, ctx):
         self.ctx = ctx
         self.bad_classes = set()
+        self.shapes = {}
         self.tpl = rl.TplRunner(ctx.workdir)
         self.selw = rl.SelWorld(ctx.workdir)
         self.cmdw = rl.CmdWorld(ctx.workdir)
@@ -54,6 +55,16 @@ class Replayer(object):
 
     def fail(self, key, part, sc, detail):
         self.bad_classes.add(klass(part, sc))
+        if part in ("tpl", "sel"):
+            # one key per shape of template / option combination, at most six of them, the rest under one key
+            parts = key.split(":")
+            head = ":".join(parts[:3]) if part == "tpl" else ":".join(parts[:2] + parts[3:])
+            shapes = self.shapes.setdefault(head, [])
+            if key not in shapes:
+                if len(shapes) >= 6:
+                    key = head + ":further-shapes"
+                else:
+                    shapes.append(key)
         self.ctx.violation(key, dict(detail, part=part, scenario=sc))
 
     # ---- one scenario -> observed result (spec shape) and, S2C only, judgement against the exported result
@@ -129,7 +140,7 @@ class Replayer(object):
                           {"expected": exp, "observed": obs, "text": raw})
         elif part == "ctxop":
             if obs != exp:
-                self.fail("Context:%s:%s" % (sc["op"], obs["exc"] or obs["r"][:40]), part, sc, {"expected": exp, "observed": obs})
+                self.fail("%s:%s" % (klass(part, sc), obs["exc"] or obs["r"][:40]), part, sc, {"expected": exp, "observed": obs})
         return obs
 
 
